@@ -19,6 +19,7 @@ type c18Call struct {
 	ID        string    `json:"id"`
 	TimeoutMs int       `json:"timeout_ms"` // 0: Do
 	GapMs     int       `json:"gap_ms"`
+	GapNs     int       `json:"gap_extra_ns,omitempty"` // the cleaner sleeps until one nanosecond past an expiry: so may a caller
 	Method    string    `json:"method"`
 	Act       srvAction `json:"server"`
 }
@@ -73,6 +74,7 @@ func scenC18(e *Env) func() {
 			for i := range p.Callers[ci] {
 				if e.Chance(50) {
 					p.Callers[ci][i].GapMs = p.IdleMs * Pick(e, 1, 1, 2, 3)
+					p.Callers[ci][i].GapNs = Pick(e, 0, 1, 1)
 				}
 			}
 		}
@@ -201,7 +203,7 @@ func c18Run(e *Env, p *c18Plan) {
 		ci := ci
 		fsx = append(fsx, func() {
 			for _, c := range p.Callers[ci] {
-				time.Sleep(time.Duration(c.GapMs) * time.Millisecond)
+				time.Sleep(time.Duration(c.GapMs)*time.Millisecond + time.Duration(c.GapNs))
 				req, resp := fasthttp.AcquireRequest(), fasthttp.AcquireResponse()
 				if p.TLS {
 					req.SetRequestURI("https://10.0.0.2:80/p?id=" + c.ID)
